@@ -332,6 +332,7 @@ func contains(xs []string, x string) bool {
 }
 
 func runC16(r *Run, rng *Rng, thorough bool) {
+	ptagCases(r)
 	nHist := 800
 	if thorough {
 		nHist = 6000
